@@ -45,6 +45,7 @@ class ObjectGenerationData:
         self.auxiliary_types = CodeBlock()
         self.docstring = CodeBlock()
         self.repr_fields = ["byte_size"]
+        self.needs_reached_missing_optional_variable = False
 
     def add_method(self, method):
         if self.methods:
@@ -186,6 +187,9 @@ class ObjectCodeGenerator:
 
         if self._context.needs_old_writer_length_variable:
             result.add_line('old_writer_length: int = len(writer)')
+
+        if self._data.needs_reached_missing_optional_variable:
+            result.add_line('reached_missing_optional: bool = False')
 
         result.add_line('old_string_sanitization_mode: bool = writer.string_sanitization_mode')
         result.begin_control_flow('try')
@@ -406,6 +410,9 @@ class ObjectCodeGenerator:
             raise RuntimeError(
                 "Cannot generate a break instruction unless chunked reading is enabled."
             )
+
+        if self._context.reached_optional_field:
+            self._data.serialize.add_line("reached_missing_optional = False")
 
         self._context.reached_optional_field = False
         self._context.reached_dummy = False
